@@ -25,7 +25,7 @@ PID = "C05"
 MODES = ["path", "luau"]
 GENERATORS = ["retain_lines", "dense", "readable"]
 EXPORTS = ["table", "function", "nil", "false", "number", "string"]
-POSITIONS = ["local", "stmt", "expr", "fn", "late"]
+POSITIONS = ["local", "stmt", "expr", "fn", "late", "strcall"]
 DATAEXT = ["json", "json5", "yaml", "yml", "toml", "txt"]
 ACTIONS = ["Pick", "NoMatch", "Match", "Excluded", "LocateFail", "Locate", "SkipErrored", "CacheHit", "CycleDetected", "Enter",
            "LeaveOk", "LeaveErr", "Finish"]
@@ -67,7 +67,28 @@ def triggers(c):
     for f, calls in enumerate(c["calls"], start=1):
         if f > 1 and c["kind"][f - 1] in ("lua", "ret0", "ret2"):
             t = t or any(x["shadow"] == 1 and x["lit"] == 1 for x in calls)
-    return {"shadow_in_module": t}
+    return {"shadow_in_module": t, "vararg_in_module": vararg_in_module(c)}
+
+
+def vararg_in_module(c):
+    """F-C05-c: the chunk-level scope of a required module mentions `...` (only hand-written `override` texts can)"""
+    import sem_common as sc
+    for path, text in (c.get("override") or {}).items():
+        if path.endswith("/main.lua") or "..." not in text:
+            continue
+        prog = sc.parse_nodes(text)
+        if prog is None:
+            continue
+        nodes = prog["nodes"]
+        todo = [prog["root"]]
+        while todo:
+            n = nodes[todo.pop() - 1]
+            if n["k"] == "vararg":
+                return True
+            if n["k"] == "fn":
+                continue
+            todo += [x for x in [n["a"], n["b"]] + ([n["c"]] if n["k"] in ("if", "ifexp") else []) + list(n["l"]) + list(n["m"]) if x]
+    return False
 
 
 def observe_and_judge(rep, cases, label, corrupt=None):
@@ -175,8 +196,9 @@ def select_cases(tier, cases, rng):
         for c in rng.sample(err, 800):
             out.append(decorate(c, k, rng)); k += 1
     else:
-        for c in ok:
-            for cfg in [(m, g, r) for m in MODES for g in GENERATORS for r in (0, 1)]:
+        cfgs = [(m, g, r) for m in MODES for g in GENERATORS for r in (0, 1)]
+        for c in ok:                                   # every non-error graph under four of the twelve configurations
+            for cfg in rng.sample(cfgs, 4):
                 out.append(decorate(c, k, rng, cfg)); k += 1
         for c in err:
             out.append(decorate(c, k, rng)); k += 1
